@@ -4,6 +4,9 @@ import LoraVerif.Lemmas.RtLemmas
 import LoraVerif.Model.History
 import LoraVerif.Lemmas.MacWFStep
 import LoraVerif.Lemmas.Accept
+import LoraVerif.Lemmas.CycleC
+import LoraVerif.Lemmas.HistoryCSafe
+import LoraVerif.Lemmas.RefineC
 /-!
 # C09 — every transmission uses an enabled in-band channel, a legal data rate and power
 
@@ -808,6 +811,87 @@ example : ((macJoinOtaa lcg (MacState.init (RegionState.init .EU868) 14 2) 1).to
     && (macSend lcg (macJoinAbp (MacState.init (RegionState.init .AU915) 30 0) 1 2 3) [1] 1 false 1).toOption.isSome) = true := by
   decide +kernel
 
+/-! ## extended histories (Class C receptions inside the receive procedure, `Model/HistoryC.lean`)
+
+What is handed to the radio by `send` / `join` does not depend on what is heard afterwards: the frame
+and its `TxConfig` are built before the receive procedure starts, in a state every extended step keeps
+well-formed (`stepC_safe`). -/
+
+theorem stepC_legal {σ} (g : Rng σ) (m m' : MacState) (s s' : σ) (ev : EvC) (out : OutC) (h : MacWF m) (hmp : m.maxPower ≤ 127)
+    (hs : stepC g (m, s) ev = .ok ((m', s'), out)) : OutLegal m.region.id m.maxPower m.antennaGain out.out := by
+  cases ev with
+  | base e => exact step_legal g m m' s s' e out.out h hmp (stepC_base g _ _ e out hs).1
+  | joinC cc fault c1 rx1 c2 rx2 =>
+    exact step_legal g m m' s s' _ out.out h hmp (stepC_joinC_plain g _ _ cc fault c1 rx1 c2 rx2 out hs).1
+  | uplinkC cc data fport conf fault c1 rx1 c2 rx2 =>
+    simp only [stepC] at hs
+    obtain ⟨⟨o, m1, s1⟩, hsend, hs1⟩ := Except.bind_eq_ok hs
+    cases o with
+    | none =>
+      simp only [pure, Except.pure, Except.ok.injEq, Prod.mk.injEq] at hs1
+      obtain ⟨_, rfl⟩ := hs1; trivial
+    | some o =>
+      have hl := send_legal g m m1 data fport conf s s1 o h hmp hsend
+      simp only at hs1
+      obtain ⟨⟨fin, heard, m2⟩, _, hs2⟩ := Except.bind_eq_ok hs1
+      have hout : ∃ r d, out.out = .up o r d := by
+        cases fin <;> simp only [pure, Except.pure, Except.ok.injEq, Prod.mk.injEq] at hs2 <;>
+          (obtain ⟨_, rfl⟩ := hs2; exact ⟨_, _, rfl⟩)
+      obtain ⟨r, d, e⟩ := hout
+      rw [e]
+      exact ⟨m, m1, h, rfl, rfl, rfl, hl.1, hl.2⟩
+
+/-- **every frame any EXTENDED history hands to the radio is legal** (Class C receptions inside the
+receive procedure included): from a well-formed state along every extended history of valid events,
+every uplink and every join request was built in a well-formed state of the same board and satisfies
+`TxLegal` there. -/
+theorem historyC_tx_legal {σ} (g : Rng σ) (m : MacState) (s : σ) (evs : List EvC) (ms' : MacState × σ) (outs : List OutC)
+    (h : MacWF m) (hmp : m.maxPower ≤ 127) (hv : ∀ ev ∈ evs, validEvC m.region.id ev = true)
+    (hr : runC g (m, s) evs = .ok (ms', outs)) : ∀ out ∈ outs, OutLegal m.region.id m.maxPower m.antennaGain out.out := by
+  induction evs generalizing m s outs ms' with
+  | nil =>
+    simp only [runC, pure, Except.pure, Except.ok.injEq, Prod.mk.injEq] at hr
+    obtain ⟨_, rfl⟩ := hr
+    intro out ho; cases ho
+  | cons ev rest ih =>
+    unfold runC at hr
+    obtain ⟨⟨⟨m1, s1⟩, o⟩, hstep, hr1⟩ := Except.bind_eq_ok hr
+    obtain ⟨⟨ms2, os⟩, hrun, hr2⟩ := Except.bind_eq_ok hr1
+    simp only [pure, Except.pure, Except.ok.injEq, Prod.mk.injEq] at hr2
+    obtain ⟨_, rfl⟩ := hr2
+    have hk : Keeps m m1 := (stepC_safe g m s ev h (hv ev List.mem_cons_self)).elim hstep
+    intro out ho
+    simp only [List.mem_cons] at ho
+    rcases ho with rfl | ho
+    · exact stepC_legal g m m1 s s1 ev out h hmp hstep
+    · have := ih m1 s1 ms2 os hk.1 (by rw [hk.2.2.2]; exact hmp)
+        (fun ev' he => by rw [hk.2.1]; exact hv ev' (List.mem_cons_of_mem _ he)) hrun out ho
+      rw [hk.2.1, hk.2.2.1, hk.2.2.2] at this
+      exact this
+
+/-- **C09 on the async front-end, for EVERY script, both classes**: the outputs of the extended
+history of a session are, call by call, what the front-end handed to the radio (`ObsRel`), and all of
+them are legal -/
+theorem asyncC_tx_legal {σ} (g : Rng σ) (cfg : DevCfg) (d : DevRun) (rs : σ) (h : MacWF d.m) (hmp : d.m.maxPower ≤ 127)
+    (ops : List AsyncOp) (hv : ∀ op ∈ ops, op.valid d.m.region.id = true)
+    (obs : List OpObs) (d' : DevRun) (rs' : σ) (hrun : asyncOps g cfg d rs ops = .ok (obs, d', rs')) :
+    ∃ outs, AllRel ObsRel obs outs ∧ ∀ out ∈ outs, OutLegal d.m.region.id d.m.maxPower d.m.antennaGain out.out := by
+  obtain ⟨outs, hr, hobs⟩ := asyncOps_runC g cfg d rs ops obs d' rs' hrun
+  refine ⟨outs, hobs, historyC_tx_legal g d.m rs _ _ outs h hmp ?_ hr⟩
+  intro ev hev
+  obtain ⟨op, hop, rfl⟩ := List.mem_map.mp hev
+  exact abstractOp_valid cfg _ op (hv op hop)
+
+/-! non-vacuity: a Class C session with a frame heard between TX and RX1 -/
+def demoHistoryC : List EvC :=
+  [ .base (.joinAbp 7 1 2),
+    .uplinkC true [1] 1 false none
+      [(.data { len := 14, confirmed := true, fcnt16 := 3, micFcnt := some 3, fopts := [], fport := some 2, payload := [3] }, 5)] none [] none ]
+
+example : ∀ ev ∈ demoHistoryC, validEvC .EU868 ev = true := by decide
+example : (runC lcg (MacState.init (RegionState.init .EU868) 14 0, 1) demoHistoryC).toOption.map (fun r => r.2.length) = some 2 := by
+  decide +kernel
+
 end C09
 
 #print axioms C09.selectTxChannel_legal
@@ -825,3 +909,6 @@ end C09
 #print axioms C09.joinAccept_chanInv
 #print axioms C09.txPowerFor_le
 #print axioms C09.send_power_limit
+#print axioms C09.stepC_legal
+#print axioms C09.historyC_tx_legal
+#print axioms C09.asyncC_tx_legal
